@@ -23,6 +23,7 @@ TABLES = [
     {"1P": "([11] O [12]) U ([13] o [14])", "2P": "(([12]))", "3P": "([13] x [14])[901]"},  # bracket shapes, lower case operators
     {},  # no package is known at all (the shipped content evaluation result then carries packages = None or {})
 ]
+VERSION_TABLES = [(0, 1), (1, 0), (1, 3), (3, 7), (6, 2), (7, 5), (5, 1)]
 FLAGS = [(True, True), (True, False), (False, True)]
 OPS_NOT_THEN = ("or_composition", "xor_composition", "and_composition")
 BOUNDS = {"quick": {"n3": "chains+5atoms", "n4": False}, "thorough": {"n3": "brackets+8atoms", "n4": True}}
@@ -84,6 +85,9 @@ def plan(tier, seed):
     for mode in ("hardcoded", "cer", "methods", "cer-shared", "jsonfile", "formats-general-first", "formats-specific-first"):
         for table in range(len(TABLES)):
             items.append({"fam": "modes", "mode": mode, "table": table})
+    # ONE provider holding package resolvers for two format versions of one format with different tables; resolutions alternate
+    for t0, t1 in VERSION_TABLES:
+        items.append({"fam": "versions", "tables": [t0, t1]})
     # package resolvers that really suspend: ALL completion orders on the virtual event loop (E3)
     for e in range(len(ORDER_EXPRS)):
         for table in (1, 2, 3):
@@ -159,6 +163,42 @@ def check_case(expr, table, fp, ft, direct=False, mode=None):
     if got != exp:
         out.append({"kind": "not-the-substituted-tree", "case": case, "expected": repr(exp)[:500], "observed": repr(got)[:500],
                     "msg": f"{expr} with {pk}: expected the tree of {sub!r}"})
+    return out
+
+
+def check_versions(expr, t0, t1):
+    """`expr` resolved alternately for two format versions behind one token logic provider: every resolution equals the textual
+    substitution with the table of ITS version"""
+    from mc import impl_modes as M
+
+    if _I is None:
+        worker_init()
+    I = _I
+    seq = (0, 1, 0, 1)
+    res = M.run_versions(lambda: I.parse_expression_including_unresolved_subexpressions(expr, resolve_packages=True, replace_time_conditions=True),
+                         [{}, {}], seq, packages_by_version=[TABLES[t0], TABLES[t1]])
+    I.setup()
+    out = []
+    for i, (v, r) in enumerate(zip(seq, res)):
+        pk = TABLES[(t0, t1)[v]]
+        case = {"expr": expr, "versions": [t0, t1], "step": i}
+        try:
+            sub = R6.substitute(expr, pk, True, True)
+        except R6.MissingPackage:
+            if r[0] == "ok" or r[1] != "NotImplementedError":
+                out.append({"kind": "missing-package-unnoticed/two-versions", "case": case, "expected": "NotImplementedError",
+                            "observed": r[1] if r[0] == "exc" else repr(_flat(r[1]))[:300], "msg": expr})
+                break
+            continue
+        if r[0] == "exc":
+            out.append({"kind": "resolution-raised/two-versions", "case": case, "expected": f"tree of {sub!r}", "observed": r[1], "msg": expr})
+            break
+        e = I.run(I.parse_expression_including_unresolved_subexpressions(sub, resolve_packages=False, replace_time_conditions=False), I.Env())
+        if _flat(r[1]) != _flat(e):
+            out.append({"kind": "not-the-substituted-tree/two-versions", "case": case, "expected": repr(_flat(e))[:500],
+                        "observed": repr(_flat(r[1]))[:500],
+                        "msg": f"{expr}: resolution {i + 1} of the sequence {list(seq)} carries format version {v} whose table is {pk}"})
+            break
     return out
 
 
@@ -238,6 +278,30 @@ def run_item(item):
                         r.violation(v["kind"], v["case"], v["expected"], v["observed"], v["msg"])
             r.sample({"expr": expr, "family": "many"})
         return r
+    if item.get("fam") == "versions":
+        from mc import impl_modes as M
+
+        try:
+            for n in (1, 2):
+                for tmpl in S.exprs_exact(n, 0):
+                    for atoms in itertools.product(ATOMS5, repeat=n):
+                        expr = S.render(tmpl, atoms=list(atoms))
+                        if "P" not in expr:
+                            continue
+                        for s in (expr, "Muss " + expr):
+                            vs = check_versions(s, *item["tables"])
+                            r.evaluations += 4
+                            r.states += 4
+                            r.transitions += 8
+                            r.traces += 1
+                            r.nontrivial += 4
+                            r.stat("two_version_sequences")
+                            for v in vs:
+                                r.violation(v["kind"], v["case"], v["expected"], v["observed"], v["msg"])
+                        r.sample({"expr": expr, "versions": item["tables"]})
+        finally:
+            M.restore()
+        return r
     if item.get("fam") == "modes":
         from mc import impl_modes as M
 
@@ -299,6 +363,13 @@ def replay(case):
         out = observe(vloop.run_schedule(factory, case["choices"]))
         return [] if out == want else [{"kind": "not-the-substituted-tree/completion-order", "case": case, "expected": want[:400],
                                          "observed": out[:400]}]
+    if case.get("versions"):
+        from mc import impl_modes as M
+
+        try:
+            return check_versions(case["expr"], *case["versions"])
+        finally:
+            M.restore()
     try:
         return check_case(case["expr"], case["table"], case["resolve_packages"], case["replace_time_conditions"], case.get("direct", False),
                           case.get("mode"))
